@@ -247,7 +247,7 @@ def run(per_type, seed, with_lean=True):
                                      "fields": base["messages"][k]["fields"]})
                         break
         # Any: pack / unpack, and rejection of a foreign URL
-        for t in schema["type_urls"]:
+        for t in schema.get("type_url_probe", schema["type_urls"]):
             k = t["rust_path"]
             b = g.message(k, 0)
             r = h.call({"op": "proto", "fn": "any", "type": k, "hex": b.hex()})
@@ -255,10 +255,11 @@ def run(per_type, seed, with_lean=True):
             m = schema["messages"].get(k)
             want = "/" + m["origin"][:-3] + "." + m["name"] if m else None
             u = h.call({"op": "proto", "fn": "type_url", "type": k}).get("ok")
-            if u != t["url"]:
+            if t["url"] is not None and u != t["url"]:
                 divs.append({"kind": "type_urls.rs-vs-compiled", "type": k, "compiled": u, "parsed": t["url"]})
             if want != u:
-                divs.append({"kind": "type_url_not_canonical", "witness": True, "type": k, "url": u, "canonical": want})
+                divs.append({"kind": "type_url_not_canonical", "witness": True, "type": k, "url": u, "canonical": want,
+                             "what": "the compiled TYPE_URL of %s is %r; the fully-qualified protobuf name gives %r" % (k, u, want)})
             if "ok" not in r or r["ok"]["unpacked"] != b.hex() or r["ok"]["type_url"] != u:
                 divs.append({"kind": "any_roundtrip", "witness": True, "hex": b.hex(), "type": k, "detail": r})
             r2 = h.call({"op": "proto", "fn": "any", "type": k, "hex": b.hex(), "url": (u or "") + "X"})
